@@ -81,7 +81,8 @@ class CoopRLock:
             if s is not None:
                 s.unblock(self)
 
-    __enter__ = acquire
+    def __enter__(self):
+        return self.acquire()
 
     def __exit__(self, *a):
         self.release()
